@@ -314,7 +314,7 @@ def main(argv):
             continue
         seen_sig.add(sigkey)
         small = c
-        if not a.replay and len(violations) < 3 and not sig.startswith("[KF:"):
+        if not a.replay and len(violations) < 3 and not sig.startswith("[KF:") and not os.environ.get("VERIF_NOSHRINK"):
             def fails(cc, r, want=sigkey, use_oracle=bool(ofail)):
                 _im, _mo, d = r
                 of = []
